@@ -158,16 +158,57 @@ class ExternalVariableCollector(NodeVisitor):
 
     def visit_FunctionDef(self, node):
         self.funcnames.add(node.name)
-        if node is not self.root:
-            # A nested def binds its name in the enclosing function
+        if node is self.root:
+            self.generic_visit(node)
+        else:
+            # A nested def binds its name in the enclosing function; its
+            # parameters and body are a scope of their own
             self.provenance[node.name] = "body"
             self.assigned.add(node.name)
-        self.generic_visit(node)
+            for deco in node.decorator_list:
+                self.visit(deco)
+            self._visit_signature(node.args)
+            if node.returns is not None:
+                self.visit(node.returns)
+
+    def _visit_signature(self, args):
+        # Defaults and annotations are evaluated in the enclosing scope
+        for default in [*args.defaults, *args.kw_defaults]:
+            if default is not None:
+                self.visit(default)
+        for arg in [
+            *getattr(args, "posonlyargs", []),
+            *args.args,
+            *args.kwonlyargs,
+            args.vararg,
+            args.kwarg,
+        ]:
+            if arg is not None and arg.annotation is not None:
+                self.visit(arg.annotation)
+
+    def visit_Lambda(self, node):
+        self._visit_signature(node.args)
 
     def visit_ClassDef(self, node):
         self.provenance[node.name] = "body"
         self.assigned.add(node.name)
-        self.generic_visit(node)
+        for expr in [*node.decorator_list, *node.bases]:
+            self.visit(expr)
+        for kw in node.keywords:
+            self.visit(kw.value)
+
+    def _visit_comprehension(self, node):
+        # Only the first iterable is evaluated in the enclosing scope; an
+        # assignment expression inside binds in the enclosing function
+        self.visit(node.generators[0].iter)
+        for sub in ast.walk(node):
+            if isinstance(sub, ast.NamedExpr):
+                self.visit(sub.target)
+
+    visit_ListComp = _visit_comprehension
+    visit_SetComp = _visit_comprehension
+    visit_DictComp = _visit_comprehension
+    visit_GeneratorExp = _visit_comprehension
 
     def visit_Name(self, node):
         if isinstance(node.ctx, ast.Load):
